@@ -221,6 +221,10 @@ def _client(prog, out):
                             rec['deepcopy'] = 'ok'
                         except Exception as e:
                             rec['deepcopy'] = type(e).__name__ + ': ' + observe.norm_text(e)[:200]
+                        try:
+                            rec['dump'] = core.digest(awesomeyaml.yaml.dump(root))
+                        except Exception as e:
+                            rec['dump'] = type(e).__name__ + ': ' + observe.norm_text(e)[:200]
                         if op['eval']:
                             cfg = Config(root)
                             rec['cfg'] = observe.native(cfg)
@@ -305,7 +309,7 @@ def _classify(path):
         return 'isolation.node', field
     if head in ('exc', 'src_errors'):
         return 'isolation.error', parts[-1]
-    if head in ('pickle', 'deepcopy'):
+    if head in ('pickle', 'deepcopy', 'dump'):
         return 'isolation.pickle', head
     if head == 'cfg':
         return 'isolation.config', 'cfg'
